@@ -36,7 +36,12 @@ def shards(tier):
                 fields = ['clientId'] + (['willTopic', 'willMessage'] if will else []) + (['username'] if user else []) + (['password'] if pw else [])
                 for rich in fields:
                     out.append(('connect', {'version': version, 'will': will, 'user': user, 'password': pw, 'rich': rich, 'ncp': ncp,
-                                            'ncp_other': 1 if T else 0}))
+                                            'ncp_other': 0}))
+    if T:
+        # two fields with one symbolic code point each at a time
+        for version in (31, 311):
+            for rich in ('clientId', 'willTopic', 'username', 'password'):
+                out.append(('connect', {'version': version, 'will': 1, 'user': 1, 'password': 1, 'rich': rich, 'ncp': 2, 'ncp_other': 0}))
     for version in (31, 311):
         for user in (0, 1):
             out.append(('connect', {'version': version, 'will': 0, 'user': user, 'password': 0, 'rich': 'clientId', 'ncp': 1, 'stray_will_args': True}))
@@ -49,8 +54,11 @@ def shards(tier):
     # remaining-length classes through large bodies
     for rl in ((127, 128, 16383, 16384, 2097151, 2097152) if T else (127, 128, 16383, 16384)):
         # remaining length = 2 + topic(1) + 2 (id, qos>0) + payload
-        out.append(('publish', {'payload': 'bytes', 'ntopic': 1, 'npayload': 2, 'payload_filler': rl - 7}))
-        out.append(('publish', {'payload': 'str', 'ntopic': 1, 'npayload': 2, 'payload_filler': rl - 7}))
+        big = rl > 100000
+        out.append(('publish', {'payload': 'bytes', 'ntopic': 1 if not big else 0, 'npayload': 2, 'payload_filler': rl - 7}))
+        out.append(('publish', {'payload': 'str', 'ntopic': 1 if not big else 0, 'npayload': 2 if not big else 1, 'payload_filler': rl - 7}))
+        if big:
+            continue
         # SUBSCRIBE: 2 (id) + [2+1+filler+1 bytes, qos] + [2+1 bytes, qos]; UNSUBSCRIBE without the qos bytes
         out.append(('subscribe', {'ntopics': 2, 'ncp': 1, 'topic_filler': rl - 10}))
         out.append(('unsubscribe', {'ntopics': 2, 'ncp': 1, 'topic_filler': rl - 8}))
@@ -68,8 +76,7 @@ META = {
                  'plus 2 symbolic code points around ASCII fillers at byte lengths 0,1,127,128,16383,16384,65535; payloads <=2 symbolic '
                  'bytes/code points plus fillers putting the remaining length at 127/128/16383/16384; topic lists 1..2; SUBACK 1..2 codes; '
                  'CONNECT: one field with 2 symbolic code points at a time, the others one ASCII character',
-        'thorough': 'as quick with <=3 symbolic code points, other CONNECT fields 1 symbolic code point, topic lists 1..3, '
-                    'remaining length also at 2097151/2097152',
+        'thorough': 'as quick with <=3 symbolic code points, topic lists 1..3, PUBLISH remaining length also around 2097151/2097152',
     },
     'stubs': codec.STUBS,
     'outside': ['fully symbolic strings longer than 3 code points', 'packet-level remaining lengths above 2097152 (primitive covered to 268435455)',
